@@ -13,6 +13,16 @@ append (the k-th primitive), with a byte prefix for writes.  Mode 'fault'
 raises OSError there (one-shot or sticky for later writes), mode 'crash' makes
 a forked child ``os._exit`` there; the parent reads the directory back.
 Mode 'pyfault' raises from the k-th Python-level ``out_file.write`` call.
+A fault plan may carry ``crash2 = {j, done, prefix}``: after the fault fired the
+process is killed at event number j of that run (retry writes, closes, every
+primitive of the rollback and the final unlink).
+
+A case either lists its plans or asks for the exhaustive enumeration
+(``enumerate``): every primitive of the fault-free append x (fault | crash) x
+(not done | done) resp. write prefixes, sticky faults, Python-level faults, and
+for every fault plan every later event of that run as a second-level crash.
+After every run a NEW recorder is constructed on the resulting directory (the
+real ``WARCRecorder.__init__``) to observe the start-up refusal.
 
 stdin: {"cases":[...]}; stdout: {"results":[...]}."""
 import errno
@@ -48,6 +58,8 @@ class Ctl:
         self.crash_seen = False
         self.tags = {}
         self.py_writes = 0
+        self.bufsize = None
+        self.fired_at = None
 
     def tag(self, path):
         return self.tags.get(os.path.abspath(path))
@@ -57,6 +69,7 @@ class Ctl:
         if act['mode'] == 'crash':
             os._exit(77)
         self.fired = True
+        self.fired_at = len(self.events)
         if self.plan.get('sticky'):
             self.sticky_on = act.get('tag')      # every later write to that file fails too
         raise OSError(errno.ENOSPC, 'injected fault')
@@ -74,10 +87,9 @@ class Ctl:
         if not self.fired and plan['mode'] in ('fault', 'crash') and plan['k'] == idx:
             return {'mode': plan['mode'], 'done': plan.get('done', False), 'prefix': plan.get('prefix', 0),
                     'tag': tag}
-        ca = plan.get('crash_after')
-        if ca and self.fired and self.in_rollback and kind == ca['kind'] and not self.crash_seen:
-            self.crash_seen = True
-            return {'mode': 'crash', 'done': ca.get('done', False), 'prefix': 0}
+        c2 = plan.get('crash2')
+        if c2 and self.fired and idx == c2['j']:
+            return {'mode': 'crash', 'done': c2.get('done', False), 'prefix': c2.get('prefix', 0), 'tag': tag}
         return None
 
 
@@ -153,11 +165,12 @@ def faulty_open(path, mode='r', *args, **kw):
     if act is not None:
         io.FileIO.close(raw)
         CTL.fire(act)
+    bs = CTL.bufsize or io.DEFAULT_BUFFER_SIZE
     if mode == 'w':
-        return io.TextIOWrapper(io.BufferedWriter(raw), encoding='utf-8')
+        return io.TextIOWrapper(io.BufferedWriter(raw, bs), encoding='utf-8')
     if mode == 'r+b':
-        return io.BufferedRandom(raw)
-    return io.BufferedWriter(raw)
+        return io.BufferedRandom(raw, bs)
+    return io.BufferedWriter(raw, bs)
 
 
 class PyWriteProxy:
@@ -172,6 +185,7 @@ class PyWriteProxy:
         plan = CTL.plan
         if CTL.active and plan and plan['mode'] == 'pyfault' and plan['k'] == i and not CTL.fired:
             CTL.fired = True
+            CTL.fired_at = len(CTL.events)
             raise OSError(errno.EIO, 'injected python-level fault')
         return self._f.write(data)
 
@@ -288,14 +302,76 @@ def snapshot(d):
     return out
 
 
+def restore(d, files):
+    for fn in os.listdir(d):
+        os.remove(os.path.join(d, fn))
+    for fn, hx in files.items():
+        with io.open(os.path.join(d, fn), 'wb') as f:
+            f.write(bytes.fromhex(hx))
+
+
+def new_ctl(A, J, plan, bufsize):
+    global CTL
+    CTL = Ctl()
+    CTL.tags = {os.path.abspath(A): 'A', os.path.abspath(J): 'J'}
+    CTL.plan = plan
+    CTL.bufsize = bufsize
+    CTL.active = True
+    return CTL
+
+
+def prefixes(n, how):
+    if n <= 0:
+        return [0]
+    if how == 'all':
+        return list(range(n))
+    return sorted({0, 1, n // 2, n - 1} & set(range(n)))
+
+
+def enum_plans(ref_events, ref_py_writes, how):
+    """every primitive of the fault-free append, as fault and as crash point"""
+    plans = [{'mode': 'none'}]
+    for k, (kind, tag, detail) in enumerate(ref_events):
+        if kind == 'write':
+            for p in prefixes(detail, how):
+                plans.append({'mode': 'fault', 'k': k, 'prefix': p})
+                plans.append({'mode': 'crash', 'k': k, 'prefix': p})
+            plans.append({'mode': 'fault', 'k': k, 'prefix': 0, 'sticky': True})
+        else:
+            for done in (False, True):
+                plans.append({'mode': 'fault', 'k': k, 'done': done})
+                plans.append({'mode': 'crash', 'k': k, 'done': done})
+    for i in range(ref_py_writes):
+        plans.append({'mode': 'pyfault', 'k': i})
+    return plans
+
+
+def second_level(plan, run, how):
+    """after the fault of `plan` fired: a kill at every later event of that run"""
+    if plan['mode'] not in ('fault', 'pyfault') or plan.get('sticky') or not run.get('fired'):
+        return []
+    ev = run['events']
+    out = []
+    for j in range(run['fired_at'], len(ev)):
+        kind, tag, detail = ev[j]
+        if kind == 'write':
+            ps = prefixes(detail if isinstance(detail, int) else 0, 'few' if how != 'all' else 'all')
+            for p in ps:
+                out.append(dict(plan, crash2={'j': j, 'prefix': p}))
+        else:
+            for done in (False, True):
+                out.append(dict(plan, crash2={'j': j, 'done': done}))
+    return out
+
+
 def run_case(case):
     d = tempfile.mkdtemp(prefix='c06-')
     res = {}
+    global CTL
     try:
         prefix = os.path.join(d, case.get('prefix', 'out'))
         params = R.WARCRecorderParams(compress=case['compress'], log=False, temp_dir=d,
                                       digests=case.get('digests', True))
-        global CTL
         CTL = Ctl()
         rec = R.WARCRecorder(prefix, params)
         for i, (sz, kind) in enumerate(case['prior']):
@@ -304,6 +380,12 @@ def run_case(case):
             rec.write_record(r0)
         A = rec._warc_filename
         J = A + '-wpullinc'
+        state = case.get('archive_state', 'normal')
+        if state == 'absent':
+            os.remove(A)
+        elif state == 'empty':
+            with io.open(A, 'wb'):
+                pass
         for fn, hx in case.get('extra_files', {}).items():
             with io.open(os.path.join(d, fn), 'wb') as f:
                 f.write(bytes.fromhex(hx))
@@ -313,36 +395,38 @@ def run_case(case):
         res['before'] = before
         newrec = make_record(99, case['new'][0], case['new'][1])
         rec.set_length_and_maybe_checksums(newrec)
+        bufsize = case.get('bufsize')
         # reference fault-free append: event log, chunks, data
-        CTL = Ctl()
-        CTL.tags = {os.path.abspath(A): 'A', os.path.abspath(J): 'J'}
-        CTL.active = True
+        ctl = new_ctl(A, J, None, bufsize)
         rec.write_record(newrec)
-        CTL.active = False
-        ref_events = CTL.events
-        res['ref_events'] = ref_events
-        res['ref_py_writes'] = CTL.py_writes
+        ctl.active = False
+        res['ref_events'] = ctl.events
+        res['ref_py_writes'] = ctl.py_writes
         after_ref = snapshot(d)
         res['after_ref'] = after_ref
-        old = bytes.fromhex(before[res['archive']])
+        old = bytes.fromhex(before.get(res['archive'], ''))
         res['data'] = after_ref[res['archive']][len(old) * 2:]
-        # restore the pre-append state (harness, not wpull)
-        with io.open(A, 'r+b') as f:
-            f.truncate(len(old))
+        restore(d, before)
         assert snapshot(d) == before
         if case.get('leftover_journal') is not None:
-            with io.open(J, 'wb') as f:
-                f.write(bytes.fromhex(case['leftover_journal']))
+            before = dict(before)
+            before[res['journal']] = case['leftover_journal']
+        how = case.get('enumerate')
+        plans = list(case.get('plans', []))
+        if how:
+            plans += enum_plans(res['ref_events'], res['ref_py_writes'], how)
+        restart = R.WARCRecorderParams(compress=case['compress'], log=False, temp_dir=d,
+                                       appending=case.get('restart_appending', True))
         runs = []
-        for plan in case.get('plans', []):
-            # each plan starts from the same pre-append state
-            for fn in os.listdir(d):
-                os.remove(os.path.join(d, fn))
-            for fn, hx in before.items():
-                with io.open(os.path.join(d, fn), 'wb') as f:
-                    f.write(bytes.fromhex(hx))
-            newrec.block_file.seek(0)
-            runs.append(run_plan(d, rec, newrec, A, J, plan))
+        for plan in plans:
+            run = run_plan(d, rec, newrec, A, J, plan, before, bufsize, prefix, restart)
+            runs.append(run)
+            if how and case.get('two_level', True):
+                for p2 in second_level(plan, run, how):
+                    runs.append(run_plan(d, rec, newrec, A, J, p2, before, bufsize, prefix, restart))
+        if case.get('slim'):
+            for run in runs:
+                run.pop('events', None)
         res['runs'] = runs
     finally:
         CTL.active = False
@@ -350,24 +434,25 @@ def run_case(case):
     return res
 
 
-def run_plan(d, rec, newrec, A, J, plan):
-    global CTL
+def run_plan(d, rec, newrec, A, J, plan, before, bufsize, prefix, restart):
+    # each plan starts from the same pre-append state
+    restore(d, before)
+    newrec.block_file.seek(0)
     out = {'plan': plan}
-    if plan['mode'] == 'crash' or plan.get('crash_after'):
+    if plan['mode'] == 'crash' or plan.get('crash2'):
         rfd, wfd = os.pipe()
         pid = os.fork()
         if pid == 0:
             os.close(rfd)
             try:
-                CTL = Ctl()
-                CTL.tags = {os.path.abspath(A): 'A', os.path.abspath(J): 'J'}
-                CTL.plan = plan
-                CTL.active = True
+                new_ctl(A, J, plan, bufsize)
                 try:
                     rec.write_record(newrec)
                     msg = 'completed'
                 except OSError:
                     msg = 'oserror'
+                except Exception as e:
+                    msg = 'other:' + type(e).__name__
                 os.write(wfd, msg.encode())
             finally:
                 os._exit(0)
@@ -377,27 +462,33 @@ def run_plan(d, rec, newrec, A, J, plan):
         _, status = os.waitpid(pid, 0)
         code = os.waitstatus_to_exitcode(status)
         out['outcome'] = 'crashed' if code == 77 else (msg or 'child-exit-%d' % code)
-        out['after'] = snapshot(d)
-        out['refuses'] = refuses(rec)
-        return out
-    CTL = Ctl()
-    CTL.tags = {os.path.abspath(A): 'A', os.path.abspath(J): 'J'}
-    CTL.plan = plan
-    CTL.active = True
-    try:
-        rec.write_record(newrec)
-        out['outcome'] = 'completed'
-    except OSError as e:
-        out['outcome'] = 'oserror'
-        out['exc'] = type(e).__name__
-    except Exception as e:        # anything else escaping write_record
-        out['outcome'] = 'other:' + type(e).__name__
-    finally:
-        CTL.active = False
-    out['fired'] = CTL.fired
-    out['events'] = CTL.events
+    else:
+        ctl = new_ctl(A, J, plan, bufsize)
+        try:
+            rec.write_record(newrec)
+            out['outcome'] = 'completed'
+        except OSError as e:
+            out['outcome'] = 'oserror'
+            out['exc'] = type(e).__name__
+        except Exception as e:        # anything else escaping write_record
+            out['outcome'] = 'other:' + type(e).__name__
+        finally:
+            ctl.active = False
+        out['fired'] = ctl.fired
+        out['fired_at'] = ctl.fired_at
+        out['events'] = ctl.events
     out['after'] = snapshot(d)
-    out['refuses'] = refuses(rec)
+    out['check_refuses'] = refuses(rec)
+    # a NEW run on this directory: the real constructor
+    CTL.active = False
+    try:
+        R.WARCRecorder(prefix, restart)
+        out['refuses'] = False
+    except OSError:
+        out['refuses'] = True
+    except Exception as e:
+        out['refuses'] = 'other:' + type(e).__name__
+    out['after_restart'] = snapshot(d)
     return out
 
 
@@ -411,28 +502,66 @@ def refuses(rec):
 
 
 def run_startup(case):
-    """_check_journals_and_maybe_raise on a directory with given file names"""
+    """the real constructor (log off) in a directory with given files; relative prefix"""
     d = tempfile.mkdtemp(prefix='c06s-')
     try:
-        for fn in case['files']:
+        for fn, hx in case['files'].items():
             p = os.path.join(d, fn)
             os.makedirs(os.path.dirname(p), exist_ok=True)
             with io.open(p, 'wb') as f:
-                f.write(b'x')
+                f.write(bytes.fromhex(hx))
         cwd = os.getcwd()
         os.chdir(d)
         try:
+            out = {}
+            if os.path.dirname(case['prefix']):
+                os.makedirs(os.path.dirname(case['prefix']), exist_ok=True)
             rec = R.WARCRecorder.__new__(R.WARCRecorder)
             rec._prefix_filename = case['prefix']
+            out['check_refuses'] = refuses(rec)
+            params = R.WARCRecorderParams(compress=case.get('compress', False), log=False, temp_dir=d,
+                                          appending=case.get('appending', True),
+                                          max_size=case.get('max_size'))
             try:
-                rec._check_journals_and_maybe_raise()
-                return {'refuses': False}
-            except OSError:
-                return {'refuses': True}
+                R.WARCRecorder(case['prefix'], params)
+                out['refuses'] = False
+            except OSError as e:
+                out['refuses'] = True
+                out['exc'] = type(e).__name__
+            except Exception as e:
+                out['refuses'] = 'other:' + type(e).__name__
+            files = {}
+            for root, _, fns in os.walk('.'):
+                for fn in fns:
+                    p = os.path.normpath(os.path.join(root, fn))
+                    with io.open(p, 'rb') as f:
+                        files[p] = f.read().hex()
+            out['after'] = files
+            return out
         finally:
             os.chdir(cwd)
     finally:
         shutil.rmtree(d, ignore_errors=True)
+
+
+def run_gzsample(case):
+    """front-locality of the gzip member decoder (assumption sample): one member decoded
+    from c and from c + y gives the same payload and leaves rest + y"""
+    import zlib
+    c = bytes.fromhex(case['c'])
+    y = bytes.fromhex(case['y'])
+
+    def one(b):
+        dd = zlib.decompressobj(31)
+        try:
+            p = dd.decompress(b)
+        except zlib.error:
+            return None
+        if not dd.eof:
+            return None
+        return [p.hex(), dd.unused_data.hex()]
+    a, b = one(c), one(c + y)
+    return {'a': a, 'b': b}
 
 
 def main():
@@ -442,6 +571,8 @@ def main():
     for case in req['cases']:
         if case.get('kind') == 'startup':
             res.append(run_startup(case))
+        elif case.get('kind') == 'gzsample':
+            res.append(run_gzsample(case))
         else:
             res.append(run_case(case))
     print(json.dumps({'results': res}))
